@@ -207,8 +207,8 @@ def shm_part(ctx, res):
                     res.count("shm:deser-of-mutated-bytes")
                     deser_cases.append(f"({coq_bytes(bb)}, {exp})")
                     metas.append(("deser", {"part": "shm-deser", "bytes": bb.hex()}))
-    r1, logs1 = coq_results("C17", HEADER, ser_cases, "check_ser shm_table shm_message_classes", tag="ser")
-    r2, logs2 = coq_results("C17", HEADER, deser_cases, "check_deser shm_table", tag="deser")
+    r1, logs1 = coq_results("C17", HEADER, ser_cases, "check_ser shm_table shm_message_classes", tag="ser", case_type="string * msg * (list N + string)")
+    r2, logs2 = coq_results("C17", HEADER, deser_cases, "check_deser shm_table", tag="deser", case_type="list N * (string * msg + string)")
     res.corr_checked += len(r1) + len(r2)
     k = 0
     sm = [m for m in metas if m[0] == "ser"]
